@@ -280,4 +280,47 @@ func cmdC17(seed uint64, tier, outdir string) {
 	cw.close()
 	iw.close()
 	vw.close()
+	// storm of tiny low-vocabulary pairs (several match chains alive at once, equal windows at many source
+	// positions): oracle only
+	nStorm := 400000
+	if tier == "thorough" {
+		nStorm = 4000000
+	}
+	sw := mustCreate(outdir, "storm.verdicts")
+	sc := mustCreate(outdir, "storm.cases")
+	for i := 0; i < nStorm; i++ {
+		vocab := 2
+		if r.chance(1, 6) {
+			vocab = 3
+		}
+		a := v1Text(r, 6+r.intn(10), vocab)
+		b := v1Text(r, 4+r.intn(6), vocab)
+		g := 3
+		if r.chance(1, 5) {
+			g = 2 + r.intn(3)
+		}
+		sc.printf("g=%d %q / %q\n", g, a, b)
+		src, tgt := searchset.New(a, g), searchset.New(b, g)
+		var cs []searchset.MatchRanges
+		pan := false
+		func() {
+			defer func() {
+				if recover() != nil {
+					pan = true
+				}
+			}()
+			cs = searchset.FindPotentialMatches(src, tgt)
+		}()
+		if pan {
+			sw.printf("VIOL - FindPotentialMatches panicked on %q / %q g=%d\n", a, b, g)
+		} else if v := candOracle(cs, tgt, b); v != "" {
+			sw.printf("VIOL - src %q tgt %q g=%d: %s\n", a, b, g, v)
+		} else if len(cs) > 0 {
+			sw.printf("OK 1\n")
+		} else {
+			sw.printf("OK 0\n")
+		}
+	}
+	sw.close()
+	sc.close()
 }
